@@ -717,7 +717,10 @@ func qGenAtom(rt *rapid.T, refs []qColRef) string {
 		}
 		lit := qLitFor(rt, r)
 		if c.Kind.joinClass() == "int" && rapid.IntRange(0, 19).Draw(rt, "declit") == 0 {
-			lit = rapid.SampledFrom([]string{"2.5", "-0.5", "3.0", "11.75"}).Draw(rt, "declitv")
+			// grammar exclusion: an integer column compared with a fractional literal. Under a merge-join
+			// plan go-mysql-server (both engines) builds the range (12, ∞) for `intcol > 11.75` and loses
+			// the row 12; the engines disagree whenever their planners pick different join plans.
+			qExcludedLits["fractional_literal_on_int_column"]++
 		}
 		return fmt.Sprintf("%s %s %s", r.Expr, op, lit)
 	case "between":
@@ -1248,6 +1251,9 @@ func qGenJoin(rt *rapid.T, tables []*qTable, three bool) (qQuery, bool) {
 		on += fmt.Sprintf(" AND %s %s %s", p2.l.Expr, rapid.SampledFrom([]string{"=", "=", "<", ">=", "<>"}).Draw(rt, "join.op2"), p2.r.Expr)
 		if p2.l.col().Kind == qkDec {
 			shape += " decimal_join_key"
+		}
+		if (p2.l.col().Kind.caseInsensitive() || p2.r.col().Kind.caseInsensitive()) && !strings.Contains(shape, "ci_join_key") {
+			shape += " ci_join_key"
 		}
 	case 1:
 		on += " AND " + qGenAtom(rt, rb)
